@@ -18,6 +18,17 @@ impl<A: WindowAccumulator> EventTimeWindowManager<A> {
     fn alloc_windows(&mut self, ts: Timestamp) {
         assert!(self.last_watermark.map(|w| ts >= w).unwrap_or(true));
 
+        // An element may be older than the first allocated window (out-of-order arrival within
+        // the watermark bound): allocate the windows before it as well
+        while let Some(front_start) = self.ws.front().map(|f| f.start) {
+            if front_start <= ts {
+                break;
+            }
+            let start = front_start - self.slide;
+            self.ws
+                .push_front(Slot::new(self.init.clone(), start, start + self.size));
+        }
+
         while self.ws.back().map(|b| b.start < ts).unwrap_or(true) {
             let mut next_start = self.ws.back().map(|b| b.start + self.slide).unwrap_or(ts);
             // Skip empty windows
